@@ -441,15 +441,16 @@ func (*stubNotifier) RelayInventory(*wire.InvVect, interface{})            {}
 func (*stubNotifier) TransactionConfirmed(*btcutil.Tx)                     {}
 
 type env struct {
-	dir     string
-	db      database.DB
-	params  *chaincfg.Params
-	chain   *blockchain.BlockChain
-	pool    *mempool.TxPool
-	note    *stubNotifier
-	gen     int
-	onEvent func(kind byte) // called after netsync's handler for every connect / disconnect notification
-	lastTs  int64           // relative timestamp of the newest block built
+	dir       string
+	db        database.DB
+	params    *chaincfg.Params
+	chain     *blockchain.BlockChain
+	pool      *mempool.TxPool
+	note      *stubNotifier
+	fetchHook func()
+	gen       int
+	onEvent   func(kind byte) // called after netsync's handler for every connect / disconnect notification
+	lastTs    int64           // relative timestamp of the newest block built
 }
 
 func synthParams(maturity int) *chaincfg.Params {
@@ -517,8 +518,16 @@ func (e *env) makePool(pol policy) error {
 			MaxTxVersion:         2,
 			RejectReplacement:    pol.rejectReplacement,
 		},
-		ChainParams:    e.params,
-		FetchUtxoView:  e.chain.FetchUtxoView,
+		ChainParams: e.params,
+		// the chain lookup of an acceptance happens while the pool's write lock is held: the pinned-schedule
+		// class uses this moment to start a competing call deterministically
+		FetchUtxoView: func(tx *btcutil.Tx) (*blockchain.UtxoViewpoint, error) {
+			if h := e.fetchHook; h != nil {
+				e.fetchHook = nil
+				h()
+			}
+			return e.chain.FetchUtxoView(tx)
+		},
 		BestHeight:     func() int32 { return e.chain.BestSnapshot().Height },
 		MedianTimePast: func() time.Time { return e.chain.BestSnapshot().MedianTime },
 		CalcSequenceLock: func(tx *btcutil.Tx, view *blockchain.UtxoViewpoint) (*blockchain.SequenceLock, error) {
